@@ -63,7 +63,7 @@ def req_C01(r, tier):
         out.append(("fe.cassign", "fe.cassign %s %s %d" % (H(a), H(b), c)))
         out.append(("fe.cnegate", "fe.cnegate %s %d" % (H(a), c)))
     # raw limb level (translation validation + unreduced representations)
-    kinds = ["max", "zero", "rand", "edge", "p", "rand", "edge"]
+    kinds = ["max", "zero", "rand", "edge", "p", "rand", "edge", "ripple", "ripple", "ripple"]
     # fel*  : serial backends, limbs up to the documented headroom (2^54 / b<1.75..2.5), compared limb-exactly with the
     #         translated kernels AND at value level against the python specification (checks.raw_value_ok)
     # felv* : value level on serial AND fiat; inputs inside fiat's tight (add/sub/neg) resp. loose (mul/square) bounds
@@ -989,4 +989,78 @@ def req_C11(r, tier):
     out += req_C07(r, small)
     out += req_C08(r, small)[: sz(tier, 400, 5000)]
     out += req_C09(r, small)[: sz(tier, 300, 5000)]
+    return out
+
+
+def req_C05(r, tier):
+    """every public operation family, replayed on all 12 configurations"""
+    out = req_C11(r, tier)
+    out += req_C13(r, "quick")[:40]
+    out += req_C16(r, "quick")[: sz(tier, 600, 3000)]
+    out += req_C17(r, "quick")[: sz(tier, 400, 2000)]
+    return out
+
+
+def req_C12(r, tier):
+    """public-API requests that select individual table entries / constants"""
+    out = []
+    step = 1 if tier != QUICK else 3
+    for v in single_digit_scalars()[::step]:
+        out.append(("ed.mul_base_raw:single_digit", "ed.mul_base_raw " + H(v)))
+        if v < L:
+            out.append(("ed.basepoint_table:single_digit", "ed.basepoint_table " + H(v)))
+            out.append(("ris.table:single_digit", "ris.table " + H(v)))
+    Bc = compress(B).hex()
+    for d in range(1, 256, 2):
+        for sign in (1, -1):
+            b = (sign * d) % L
+            out.append(("ed.double_base:oddB", "ed.double_base %s %s %s" % (H(0), Bc, H(b))))
+            for c in ("serial", "avx2", "ifma"):
+                out.append(("ed.direct.%s.double_base:oddB" % c, "ed.direct.%s.double_base %s %s %s" % (c, H(0), Bc, H(b))))
+    # NAF digit positions other than 0 for the odd-multiples tables
+    for i in range(sz(tier, 60, 600)):
+        d = 2 * r.below(64) + 1
+        pos = r.below(240)
+        b = (d << pos) % L
+        out.append(("ed.double_base:oddB_shifted", "ed.double_base %s %s %s" % (H(0), Bc, H(b))))
+    for i in range(8):
+        out.append(("ed.seq:torsion", "ed.seq T%d;T1;M1,%s;E0,2;O0;C0;Z5" % (i, H(i))))
+    out.append(("grp.consts", "grp.consts"))
+    for u in (9,):
+        out.append(("mont.mul_base", "mont.mul_base " + H(1)))
+        out.append(("ed.to_montgomery:B", "ed.to_montgomery " + Bc))
+    out.append(("ed.mul_base:l", "ed.mul_base_raw " + H(L)))
+    out.append(("ed.mul_base:l-1", "ed.mul_base " + H(L - 1)))
+    out.append(("ris.mul_base:1", "ris.mul_base " + H(1)))
+    # field-level uses of the curve/map constants
+    for i in range(sz(tier, 40, 400)):
+        out.append(("ris.from_uniform", "ris.from_uniform " + r.bytes(64).hex()))
+        out.append(("mont.elligator", "mont.elligator " + H(r.below(P))))
+        out.append(("ed.decompress:rand", "ed.decompress " + H(r.below(1 << 256))))
+        s = r.below(L)
+        out.append(("sc.mul", "sc.mul %s %s" % (H(s), H(r.below(L)))))
+        out.append(("sc.reduce_wide", "sc.reduce_wide " + r.bytes(64).hex()))
+        out.append(("x.x25519", "x.x25519 %s %s" % (r.bytes(32).hex(), r.bytes(32).hex())))
+    pool = ris_pool(r, 6)
+    for lab, b in pool:
+        out.append(("ris.decompress", "ris.decompress " + b.hex()))
+    return out
+
+
+def req_C10(r, tier):
+    """value-level sanity stream for the constant-time entry points (the trace comparison is in special.extra_C10)"""
+    return req_C02(r, "quick")[:300] + req_C07(r, "quick")[:200]
+
+
+def req_C14(r, tier):
+    """functional stream for the code paths that wipe heap buffers (results must be unaffected by the wiping)"""
+    out = []
+    for n in (0, 1, 2, 3, 8, 17):
+        ss = [H(r.below(L)) for _ in range(n)]
+        ps = [compress(smul(3 + i, B)).hex() for i in range(n)]
+        out.append(("ed.msm_ct:n=%d" % n, "ed.msm_ct %s %s" % (lst(ss), lst(ps))))
+        for c in ("serial", "avx2", "ifma"):
+            out.append(("ed.direct.%s.straus_ct" % c, "ed.direct.%s.straus_ct %s %s" % (c, lst(ss), lst(ps))))
+        xs = [(r.below(L - 1) + 1) for _ in range(n)]
+        out.append(("sc.batch_invert:n=%d" % n, "sc.batch_invert " + lst(H(x) for x in xs)))
     return out
